@@ -914,3 +914,112 @@ func frozenOwnerOf(c *an.Ctx, src *an.FuncSrc, suffix string, frozen map[string]
 	}
 	return owner
 }
+
+func init() {
+	old := All["C15"].Run
+	All["C15"].Run = func(c *an.Ctx) {
+		old(c)
+		c15nilMapIsEmptyMap(c)
+	}
+	All["C15"].Rules += " R9"
+	addLevel("C15", "catalogue code treats a nil map like an empty map: where a function returns early for `m == nil`, a missing key in m leads to the same kind of result (a replica restored from a snapshot has nil where the replica that applied every command has an empty map).")
+}
+
+// c15nilMapIsEmptyMap — C15.R9.  After the last measurement of a policy is dropped the map is
+// empty on the replicas that applied the commands and nil on a replica restored from a
+// snapshot (empty maps are not encoded).  A function that answers `nil map ⇒ nil` and
+// `key missing ⇒ error` gives the two replicas different results for the same command.
+func c15nilMapIsEmptyMap(c *an.Ctx) {
+	r := c.Rule("C15.R9", "K-SIBLING(branches)", metaPkg+": a nil-map early return and the lookup miss of the same map report the same kind of result (nil ≙ empty)")
+	n := 0
+	for _, d := range c.P.AllDecls() {
+		if !an.InPkg(d, metaPkg) {
+			continue
+		}
+		info := d.Pkg.TypesInfo
+		retKind := func(list []ast.Stmt) string {
+			if len(list) == 0 {
+				return ""
+			}
+			rs, ok := list[len(list)-1].(*ast.ReturnStmt)
+			if !ok || len(rs.Results) == 0 {
+				return ""
+			}
+			last := rs.Results[len(rs.Results)-1]
+			if t := info.TypeOf(last); t == nil || !types.AssignableTo(t, types.Universe.Lookup("error").Type()) && !an.IsNilIdent(info, last) {
+				return ""
+			}
+			if an.IsNilIdent(info, last) {
+				return "nil"
+			}
+			return "error"
+		}
+		// nil-map guards: if X == nil { …; return … }
+		nilKind := map[string]string{}
+		ast.Inspect(d.Decl.Body, func(m ast.Node) bool {
+			is, ok := m.(*ast.IfStmt)
+			if !ok || is.Else != nil {
+				return true
+			}
+			be, ok := ast.Unparen(is.Cond).(*ast.BinaryExpr)
+			if !ok || be.Op.String() != "==" || !an.IsNilIdent(info, be.Y) {
+				return true
+			}
+			if t := info.TypeOf(be.X); t == nil {
+				return true
+			} else if _, isMap := t.Underlying().(*types.Map); !isMap {
+				return true
+			}
+			if k := retKind(is.Body.List); k != "" {
+				nilKind[types.ExprString(be.X)] = k
+			}
+			return true
+		})
+		if len(nilKind) == 0 {
+			continue
+		}
+		// lookup misses: v, ok := X[k]; if !ok { …; return … }
+		var okVars = map[types.Object]string{}
+		ast.Inspect(d.Decl.Body, func(m ast.Node) bool {
+			switch x := m.(type) {
+			case *ast.AssignStmt:
+				if len(x.Lhs) == 2 && len(x.Rhs) == 1 {
+					if ix, ok := ast.Unparen(x.Rhs[0]).(*ast.IndexExpr); ok {
+						if id, ok := x.Lhs[1].(*ast.Ident); ok {
+							o := info.Defs[id]
+							if o == nil {
+								o = info.Uses[id]
+							}
+							if o != nil {
+								okVars[o] = types.ExprString(ix.X)
+							}
+						}
+					}
+				}
+			case *ast.IfStmt:
+				ue, ok := ast.Unparen(x.Cond).(*ast.UnaryExpr)
+				if !ok || ue.Op.String() != "!" {
+					return true
+				}
+				id, ok := ast.Unparen(ue.X).(*ast.Ident)
+				if !ok {
+					return true
+				}
+				mp, ok := okVars[info.Uses[id]]
+				if !ok {
+					return true
+				}
+				nk, guarded := nilKind[mp]
+				if !guarded {
+					return true
+				}
+				n++
+				if mk := retKind(x.Body.List); mk != "" && mk != nk {
+					r.Fail(d.Name()+": nil map vs missing key of "+mp, c.P.Pos(x.Pos()), "%s returns %s when %s is nil but %s when the key is missing from it: a replica restored from a snapshot (nil map) and one that applied every command (empty map) answer the same command differently", d.Name(), nk, mp, mk)
+				}
+			}
+			return true
+		})
+	}
+	r.AddSites(n)
+}
